@@ -423,6 +423,9 @@ func c17Data(c *Ctx) {
 		}
 	}
 	if ok {
+		ok, why = c17RowBlank(c, fn)
+	}
+	if ok {
 		sorts := callsNamed(fn, "sort.Sort", "sort.Stable")
 		if len(sorts) != 1 || loopHeaderOf(sorts[0].Block()) != nil {
 			ok, why = false, "rows are not sorted once after all series were added"
@@ -452,6 +455,212 @@ func c17Data(c *Ctx) {
 		}
 	}
 	c.Check(ok, key, rule, "Downsample(s.len, p.threshold, s.iter()); one row per point; sorted by x", why, c.at(d))
+}
+
+// naturalLoop: the blocks of the loops headed by h (h plus everything that reaches one of h's back
+// edges without passing through h).
+func naturalLoop(h *ssa.BasicBlock) map[*ssa.BasicBlock]bool {
+	body := map[*ssa.BasicBlock]bool{h: true}
+	var work []*ssa.BasicBlock
+	for _, p := range h.Preds {
+		if h.Dominates(p) && !body[p] {
+			body[p] = true
+			work = append(work, p)
+		}
+	}
+	for len(work) > 0 {
+		b := work[len(work)-1]
+		work = work[:len(work)-1]
+		for _, p := range b.Preds {
+			if !body[p] {
+				body[p] = true
+				work = append(work, p)
+			}
+		}
+	}
+	return body
+}
+
+// countsFrom: v is a loop counter φ(start, v+1) with a constant start of at most max (column 0 always
+// receives X, so a fill may begin at 1).
+func countsFrom(v ssa.Value, max int64) bool {
+	phi, ok := v.(*ssa.Phi)
+	if !ok || len(phi.Edges) != 2 {
+		return false
+	}
+	start, inc := false, false
+	for _, e := range phi.Edges {
+		if z, isK := constInt(e); isK && z >= 0 && z <= max {
+			start = true
+		}
+		if bo, isBo := e.(*ssa.BinOp); isBo && bo.Op == token.ADD && bo.X == ssa.Value(phi) && isConstOne(bo.Y) {
+			inc = true
+		}
+	}
+	return start && inc
+}
+
+// c17RowBlank: a result is a point of its own series only. Every other cell of its row must be NaN
+// (dygraphs draws a gap for NaN and a point for any number, 0 included), so every block of float64
+// cells a row is taken from must be filled with NaN completely before a row from it is appended.
+func c17RowBlank(c *Ctx, fn *ssa.Function) (bool, string) {
+	var app *ssa.Call
+	eachInstr(fn, func(i ssa.Instruction) {
+		if call, isCall := i.(*ssa.Call); isCall && callName(&call.Call) == "builtin:append" && isNamedType(call.Type(), "lib/plot", "dataPoints") {
+			app = call
+		}
+	})
+	if app == nil {
+		return false, "no row append"
+	}
+	elems, known := sliceElems(app.Call.Args[1])
+	if !known || len(elems) != 1 {
+		return false, "the appended rows cannot be identified"
+	}
+	// where the row's cells come from
+	var blocks []*ssa.MakeSlice
+	unknown := ""
+	seen := map[ssa.Value]bool{}
+	var origin func(v ssa.Value, depth int)
+	origin = func(v ssa.Value, depth int) {
+		if seen[v] || depth > 12 {
+			return
+		}
+		seen[v] = true
+		switch x := v.(type) {
+		case *ssa.MakeSlice:
+			blocks = append(blocks, x)
+		case *ssa.Slice:
+			origin(x.X, depth+1)
+		case *ssa.Phi:
+			for _, e := range x.Edges {
+				origin(e, depth+1)
+			}
+		case *ssa.UnOp:
+			// a local spilled to a cell (captured or address-taken): every store into the cell
+			if al, isAl := x.X.(*ssa.Alloc); isAl && x.Op == token.MUL {
+				for _, r := range refs(al) {
+					if st, isSt := r.(*ssa.Store); isSt && st.Addr == ssa.Value(al) {
+						origin(st.Val, depth+1)
+					}
+				}
+				return
+			}
+			unknown = describeVal(v)
+		case *ssa.Parameter:
+			if arg := uniqueSiteArg(x); arg != nil {
+				origin(arg, depth+1)
+				return
+			}
+			unknown = describeVal(v)
+		case *ssa.Call:
+			if g := x.Call.StaticCallee(); g != nil && g.Pkg == fn.Pkg && g.Signature.Results().Len() == 1 && len(g.Blocks) > 0 {
+				c.Saw("function " + shortFn(g))
+				for _, b := range g.Blocks {
+					if r, isR := b.Instrs[len(b.Instrs)-1].(*ssa.Return); isR {
+						origin(r.Results[0], depth+1)
+					}
+				}
+				return
+			}
+			unknown = describeVal(v)
+		default:
+			unknown = describeVal(v)
+		}
+	}
+	origin(elems[0], 0)
+	if unknown != "" {
+		return false, "a row's cells come from " + unknown + ": cannot show that the cells of the other series are NaN"
+	}
+	if len(blocks) == 0 {
+		return false, "no allocation of the row's cells found"
+	}
+	isNaN := func(v ssa.Value) bool {
+		if call, isCall := v.(*ssa.Call); isCall && callName(&call.Call) == "math.NaN" {
+			return true
+		}
+		if ld, isL := isLoad(v); isL { // `nan` captured or spilled
+			if al, isAl := ld.X.(*ssa.Alloc); isAl {
+				n, good := 0, 0
+				for _, r := range refs(al) {
+					if st, isSt := r.(*ssa.Store); isSt && st.Addr == ssa.Value(al) {
+						n++
+						if call, isCall := st.Val.(*ssa.Call); isCall && callName(&call.Call) == "math.NaN" {
+							good++
+						}
+					}
+				}
+				return n > 0 && n == good
+			}
+		}
+		return false
+	}
+	for _, m := range blocks {
+		filled := false
+		var visit func(v ssa.Value, depth int)
+		visit = func(v ssa.Value, depth int) {
+			if filled || depth > 3 {
+				return
+			}
+			for _, r := range refs(v) {
+				ia, isIA := r.(*ssa.IndexAddr)
+				if !isIA || ia.X != v {
+					continue
+				}
+				for _, rr := range refs(ia) {
+					st, isSt := rr.(*ssa.Store)
+					if !isSt || st.Addr != ssa.Value(ia) || !isNaN(st.Val) || !(rangeIndexValue(ia.Index) || countsFrom(ia.Index, 1)) {
+						continue
+					}
+					h := loopHeaderOf(st.Block())
+					if h == nil {
+						continue
+					}
+					// the loop runs over the whole block: its bound is len of the block
+					bounded := false
+					for _, b := range h.Parent().Blocks {
+						if !naturalLoop(h)[b] {
+							continue
+						}
+						for _, i := range b.Instrs {
+							bo, isBo := i.(*ssa.BinOp)
+							if !isBo || bo.Op != token.LSS {
+								continue
+							}
+							whole := bo.Y == m.Len
+							if call, isCall := bo.Y.(*ssa.Call); isCall && callName(&call.Call) == "builtin:len" && call.Call.Args[0] == v {
+								whole = true
+							}
+							if whole && (bo.X == ia.Index || rangeIndexValue(bo.X)) {
+								bounded = true
+							}
+						}
+					}
+					if !bounded {
+						continue
+					}
+					// completed before the row is appended: the loop dominates the append and does not contain it
+					if h.Dominates(app.Block()) && !naturalLoop(h)[app.Block()] {
+						filled = true
+					} else if m.Parent() != fn {
+						// filled inside the helper that builds the row: complete before the helper returns
+						done := true
+						for _, b := range m.Parent().Blocks {
+							if _, isR := b.Instrs[len(b.Instrs)-1].(*ssa.Return); isR && (!h.Dominates(b) || naturalLoop(h)[b]) {
+								done = false
+							}
+						}
+						filled = done
+					}
+				}
+			}
+		}
+		visit(m, 0)
+		if !filled {
+			return false, "rows are taken from a block of cells (" + c.at(m) + ") that is not filled with NaN over its whole length before use: a result would show up as a point (at 0) in every other series"
+		}
+	}
+	return true, ""
 }
 
 func c17Downsample(c *Ctx) {
